@@ -13,6 +13,7 @@ the Go memory model, scheduler effects, slice aliasing of returned buffers.  Tho
 only (harness/c18.go, harness/c18_race under the race detector); see meta/C18.json.
 -/
 import JsonV.Lemmas.ResetL
+import JsonV.Lemmas.ResetPoolL
 import JsonV.Gen.Constants
 import JsonV.Gen.Straight
 
@@ -161,6 +162,54 @@ theorem floor_cleared_by_reset :
       behaviour P0 (fresh Flags.empty) [.pushArray, .popArray] ∧
     behaviour P0 (fresh Flags.empty) [.pushArray, .popArray] = [.ok 2 0 1 none, .ok 1 1 2 none] := by
   decide
+
+/-! ### Pool discipline: results do not depend on what the pools hold
+
+Tied to the Go code by the pool audit of harness/c18_pools.go, which after every call of the pool
+(baseline pass and every other in-process pass) empties the seven `sync.Pool`s of the library and
+requires every object to be present once.  `Cmd.get`/`Cmd.put` stand for
+  getStrings/putStrings            arshal_any.go:152/167, arshal_default.go:885/902, arshal_embedded.go:145/162
+  getObjectMembers/putObjectMembers jsontext/value.go:335/336
+  get/putBufferedEncoder           arshal.go:166/167, value.go:46/47, 138/139, 307/308, v1/stream.go:141/142
+  get/putStreamingEncoder          arshal.go:183/184 (both the io.Writer and the bytes.Buffer pool)
+  get/putBufferedDecoder           arshal.go:392/393, arshal_embedded.go:59/60, value.go:98/99, 311/312, v1/scanner.go:28/29
+  get/putStreamingDecoder          arshal.go:410/411
+`write` = the reset / overwrite every user performs after `get`; `read` = any use of the object. -/
+
+open JsonV.Model.Reset.Pool JsonV.Lemmas.ResetPoolL in
+/-- A program that obeys the discipline (each get'd object is put at most once, is not used
+after its put, is read only after it was written) observes exactly what it would observe with
+private fresh objects — from ANY pool that holds no object twice, whatever objects and stale
+contents it holds — and leaves such a pool behind. -/
+theorem pool_transparent (cs : List Cmd) (p : PSt) (r : RSt) (vs : List Val)
+    (hd : rrun {} cs = some (r, vs)) (hg : GoodPool p) (hn : p.nh = 0) :
+    (prun p cs).2 = vs ∧ GoodPool (prun p cs).1 := by
+  have h := run_sim cs p {} r vs (inv_of_good p {} hg hn (fun _ => rfl)) hd
+  exact ⟨h.1, good_of_inv _ _ h.2⟩
+
+open JsonV.Model.Reset.Pool JsonV.Lemmas.ResetPoolL in
+/-- Hence two pools (two histories) give the same observations. -/
+theorem pool_contents_irrelevant (cs : List Cmd) (p p' : PSt) (hd : Disciplined cs)
+    (hg : GoodPool p) (hg' : GoodPool p') (hn : p.nh = 0) (hn' : p'.nh = 0) :
+    (prun p cs).2 = (prun p' cs).2 := by
+  obtain ⟨r, vs, hr⟩ := hd
+  rw [(pool_transparent cs p r vs hr hg hn).1, (pool_transparent cs p' r vs hr hg' hn').1]
+
+open JsonV.Model.Reset.Pool in
+/-- The discipline is necessary.  An earlier call that puts its object twice (the reference
+semantics rejects it) leaves a pool in which a later, perfectly disciplined call — an outer user
+and a nested user, each with its own `get` — is handed the same object twice and reads the inner
+user's data: 20 instead of 10. -/
+theorem double_put_breaks :
+    let earlier : List Cmd := [.get, .write 0 5, .put 0, .put 0]
+    let later : List Cmd := [.get, .write 0 10, .get, .write 1 20, .put 1, .read 0, .put 0]
+    let clean : PSt := { heap := fun _ => 0, pool := [], next := 0 }
+    rrun {} earlier = none ∧
+    (∃ r, rrun {} later = some (r, [10])) ∧
+    (prun clean later).2 = [10] ∧
+    (prun { (prun clean earlier).1 with nh := 0 } later).2 = [20] ∧
+    ¬ (prun clean earlier).1.pool.Nodup := by
+  refine ⟨by decide, ⟨_, rfl⟩, by decide, by decide, by decide⟩
 
 /-! ### Full statement that stays validation-only -/
 
